@@ -16,6 +16,7 @@ import (
 	"sync"
 	"testing"
 	"testing/synctest"
+	"time"
 
 	"github.com/wundergraph/graphql-go-tools/v2/pkg/ast"
 	"github.com/wundergraph/graphql-go-tools/v2/pkg/engine/datasource/httpclient"
@@ -40,12 +41,15 @@ type reqSpec struct {
 	NoDedup  bool   // DisableInboundRequestDeduplication (drives the subgraph-level single flight)
 	BadWrite bool   // this client's response writer fails (broken pipe)
 	DS       string // data source ID of the fetch ("" = sg1); every data source has the same display NAME
+	Expire   bool   // this client's context ends by DEADLINE (context.DeadlineExceeded) at some point
+	After    string // this client arrives only after that other client's call has returned (a history, not an overlap)
 }
 
 type scenario struct {
 	Name     string
 	Reqs     []reqSpec
 	FailKeys map[string]bool // fetch inputs for which the data source always fails
+	FailOnce map[string]bool // fetch inputs whose FIRST load fails (transient upstream failure), later ones succeed
 	Status   map[string]int  // fetch inputs answered with this HTTP status and an unusable body
 }
 
@@ -67,12 +71,14 @@ func (b hdrBuilder) HashAll() uint64 {
 // fakeDS is the subgraph: the answer is a function of (input, forwarded header),
 // so a response shared across different keys is visible in the bytes.
 type fakeDS struct {
-	s      *sched.Sched
-	status map[string]int
-	fail   map[string]bool
-	mu     sync.Mutex
-	loads  map[string]int
-	log    []string
+	s        *sched.Sched
+	status   map[string]int
+	fail     map[string]bool
+	failOnce map[string]bool
+	seen     map[string]int
+	mu       sync.Mutex
+	loads    map[string]int
+	log      []string
 }
 
 func dsID(q reqSpec) string {
@@ -126,6 +132,16 @@ func (d *fakeDS) load(ctx context.Context, id string, headers http.Header, input
 	}
 	if d.fail[in] {
 		return nil, errors.New("upstream unavailable for " + in)
+	}
+	d.mu.Lock()
+	if d.seen == nil {
+		d.seen = map[string]int{}
+	}
+	d.seen[in]++
+	nth := d.seen[in]
+	d.mu.Unlock()
+	if d.failOnce[in] && nth == 1 {
+		return nil, errors.New("upstream briefly unavailable for " + in)
 	}
 	// give the HTTP response context a status code like the real client does
 	if st, ok := d.status[in]; ok {
@@ -191,6 +207,64 @@ func newCtx(parent context.Context, q reqSpec) *resolve.Context {
 	return c
 }
 
+// expCtx is a context that ends with context.DeadlineExceeded when expire() is
+// called (the harness decides when the deadline "fires"). It implements the
+// AfterFunc hook of package context, so contexts derived from it need no extra
+// goroutine.
+type expCtx struct {
+	context.Context
+	mu    sync.Mutex
+	done  chan struct{}
+	err   error
+	after []func()
+}
+
+func newExpCtx() *expCtx { return &expCtx{Context: context.Background(), done: make(chan struct{})} }
+
+func (c *expCtx) Done() <-chan struct{}       { return c.done }
+func (c *expCtx) Deadline() (time.Time, bool) { return time.Unix(1, 0), true }
+func (c *expCtx) Err() error {
+	c.mu.Lock()
+	defer c.mu.Unlock()
+	return c.err
+}
+func (c *expCtx) AfterFunc(f func()) func() bool {
+	c.mu.Lock()
+	defer c.mu.Unlock()
+	if c.err != nil {
+		go f()
+		return func() bool { return false }
+	}
+	c.after = append(c.after, f)
+	i := len(c.after) - 1
+	return func() bool {
+		c.mu.Lock()
+		defer c.mu.Unlock()
+		if c.err != nil || c.after[i] == nil {
+			return false
+		}
+		c.after[i] = nil
+		return true
+	}
+}
+func (c *expCtx) expire() {
+	c.mu.Lock()
+	if c.err != nil {
+		c.mu.Unlock()
+		return
+	}
+	c.err = context.DeadlineExceeded
+	fs := c.after
+	c.after = nil
+	close(c.done)
+	c.mu.Unlock()
+	for _, f := range fs {
+		if f != nil {
+			f()
+		}
+	}
+}
+
 type outcome struct {
 	returned bool
 	bytes    string
@@ -205,7 +279,11 @@ func solo(q reqSpec, sc scenario) outcome {
 	rctx, cancel := context.WithCancel(context.Background())
 	defer cancel()
 	r := resolve.New(rctx, resolverOptions())
-	ds := &fakeDS{fail: sc.FailKeys, status: sc.Status, loads: map[string]int{}}
+	ds := &fakeDS{fail: sc.FailKeys, failOnce: sc.FailOnce, status: sc.Status, loads: map[string]int{}}
+	if q.After != "" {
+		// arrives after the other client's call: the transient failure is over
+		ds.seen = map[string]int{fetchInput(q): 1}
+	}
 	buf := &clientWriter{broken: q.BadWrite}
 	_, err := r.ArenaResolveGraphQLResponse(newCtx(context.Background(), q), planFor(q, ds), buf)
 	o := outcome{returned: true, bytes: buf.buf.String()}
@@ -225,6 +303,10 @@ func scenarios(thorough bool) []scenario {
 		{Name: "I1-two-identical", Reqs: []reqSpec{a("A", "q1", "v1", "h1"), a("B", "q1", "v1", "h1")}},
 		{Name: "I3-different-variables", Reqs: []reqSpec{a("A", "q1", "v1", "h1"), a("B", "q1", "v2", "h1")}},
 		{Name: "I4-different-headers", Reqs: []reqSpec{a("A", "q1", "v1", "h1"), a("B", "q1", "v1", "h2")}},
+		{Name: "I11-leader-or-follower-deadline-expires", Reqs: []reqSpec{{Name: "A", Op: "q1", Vars: "v1", Hdr: "h1", Expire: true}, a("B", "q1", "v1", "h1")}},
+		{Name: "I12-transient-failure-then-the-same-request-again", Reqs: []reqSpec{a("A", "q1", "v1", "h1"), {Name: "B", Op: "q1", Vars: "v1", Hdr: "h1", After: "A"}}, FailOnce: map[string]bool{"q1/v1": true}},
+		{Name: "L9-transient-subgraph-failure-then-the-same-fetch-again", Reqs: []reqSpec{{Name: "A", Op: "q1", Vars: "v1", Hdr: "h1", SubFetch: "F1", NoDedup: true}, {Name: "B", Op: "q2", Vars: "v1", Hdr: "h1", SubFetch: "F1", NoDedup: true, After: "A"}}, FailOnce: map[string]bool{"F1": true}},
+		{Name: "L10-subgraph-participant-deadline-expires", Reqs: []reqSpec{{Name: "A", Op: "q1", Vars: "v1", Hdr: "h1", SubFetch: "F1", NoDedup: true, Expire: true}, {Name: "B", Op: "q2", Vars: "v1", Hdr: "h1", SubFetch: "F1", NoDedup: true}}},
 		{Name: "I10-different-operations", Reqs: []reqSpec{a("A", "q1", "v1", "h1"), a("B", "q2", "v1", "h1")}},
 		{Name: "I5-mutation-twice", Reqs: []reqSpec{{Name: "A", Op: "m1", Vars: "v1", Hdr: "h1", Mutation: true, FetchMut: true}, {Name: "B", Op: "m1", Vars: "v1", Hdr: "h1", Mutation: true, FetchMut: true}}},
 		{Name: "I6-upstream-fails", Reqs: []reqSpec{a("A", "q1", "v1", "h1"), a("B", "q1", "v1", "h1")}, FailKeys: map[string]bool{"q1/v1": true}},
@@ -263,11 +345,16 @@ func buildScenario(sc scenario, solos map[string]outcome) *sched.Scenario {
 		Body: func(s *sched.Sched) {
 			rctx, cancel := context.WithCancel(context.Background())
 			r := resolve.New(rctx, resolverOptions())
-			in := &instance{cancelRoot: cancel, ds: &fakeDS{s: s, fail: sc.FailKeys, status: sc.Status, loads: map[string]int{}}, out: map[string]*outcome{}, cancelled: map[string]bool{}}
+			in := &instance{cancelRoot: cancel, ds: &fakeDS{s: s, fail: sc.FailKeys, failOnce: sc.FailOnce, status: sc.Status, loads: map[string]int{}}, out: map[string]*outcome{}, cancelled: map[string]bool{}}
 			inst = in
 			for _, q := range sc.Reqs {
 				q := q
 				cctx, ccancel := context.WithCancel(context.Background())
+				var ectx *expCtx
+				if q.Expire {
+					ectx = newExpCtx()
+					cctx = ectx
+				}
 				o := &outcome{}
 				in.out[q.Name] = o
 				s.Go(q.Name, func() {
@@ -277,6 +364,13 @@ func buildScenario(sc scenario, solos map[string]outcome) *sched.Scenario {
 							panic(p)
 						}
 					}()
+					if q.After != "" {
+						s.PointWhen("after:"+q.After, func() bool {
+							in.mu.Lock()
+							defer in.mu.Unlock()
+							return in.out[q.After].returned
+						})
+					}
 					buf := &clientWriter{broken: q.BadWrite}
 					info, err := r.ArenaResolveGraphQLResponse(newCtx(cctx, q), planFor(q, in.ds), buf)
 					in.mu.Lock()
@@ -290,6 +384,14 @@ func buildScenario(sc scenario, solos map[string]outcome) *sched.Scenario {
 					}
 					in.mu.Unlock()
 				})
+				if q.Expire {
+					s.Go("expire"+q.Name, func() {
+						in.mu.Lock()
+						in.cancelled[q.Name] = true
+						in.mu.Unlock()
+						ectx.expire()
+					})
+				}
 				if q.Cancel {
 					s.Go("cancel"+q.Name, func() {
 						in.mu.Lock()
@@ -323,7 +425,7 @@ func buildScenario(sc scenario, solos map[string]outcome) *sched.Scenario {
 					key = append(key, q.Name+":panic")
 				case o.err != "":
 					key = append(key, q.Name+":err="+o.err)
-					isCtx := strings.Contains(o.err, "context canceled")
+					isCtx := strings.Contains(o.err, "context canceled") || strings.Contains(o.err, "context deadline exceeded")
 					if isCtx && !cancelled {
 						fs = append(fs, sched.Finding{Clause: "one client's disconnect never becomes another client's error", Site: "foreign cancellation as returned error", Detail: fmt.Sprintf("%s returned %q but its own context was never cancelled", q.Name, o.err)})
 					} else if !isCtx && o.err != want.err {
